@@ -97,6 +97,8 @@ def dOp? : List String → Option (Nat × Op K V)
   | ["append", i, k, v] => do let i ← i.toNat?; let v ← v.toInt?; if okKey k then some (i, .append k v) else none
   | ["clear", i] => do let i ← i.toNat?; some (i, .clear)
   | ["copy", i] => do let i ← i.toNat?; some (i, .copy)
+  -- pickle round trip / copy.copy / copy.deepcopy: reconstruction of the class from `__getstate__() = items()`
+  | ["pickle", i] => do let i ← i.toNat?; some (i, .copy)
   | ["createp", i, ps] => do let i ← i.toNat?; let ps ← pairs? ps; some (i, .create ps)
   | ["sift", i, fs] => do
       let i ← i.toNat?
@@ -146,6 +148,8 @@ def mOp? (h : List (OD K (List V))) : List String → Option (Nat × MOp K V)
   | ["listitems", i] => do let i ← i.toNat?; some (i, .listitems)
   | ["allitems", i] => do let i ← i.toNat?; some (i, .allitems)
   | ["copy", i] => do let i ← i.toNat?; some (i, .copy)
+  -- modict.__reduce__ (fix D39c): `modict(self.allitems())`
+  | ["pickle", i] => do let i ← i.toNat?; some (i, .copy)
   | ["get", i, k, d, idx] => do
       let i ← i.toNat?; let d ← optInt? d; let idx ← idx.toInt?
       if okKey k then some (i, .get k d idx) else none
@@ -213,6 +217,8 @@ def sOp? (h : List (List K)) : List String → Option (Nat × SOp K)
   | ["len", i] => do let i ← i.toNat?; some (i, .len)
   | ["iter", i] => do let i ← i.toNat?; some (i, .iter)
   | ["rev", i] => do let i ← i.toNat?; some (i, .reversed)
+  -- pickle round trip of an oset: its elements in order
+  | ["pickle", i] => do let i ← i.toNat?; some (i, .or (.list []))
   | ["or", i, a] => do let i ← i.toNat?; let a ← sArg? h a; some (i, .or a.1)
   | ["and", i, a] => do let i ← i.toNat?; let a ← sArg? h a; some (i, .and a.1)
   | ["sub", i, a] => do let i ← i.toNat?; let a ← sArg? h a; some (i, .sub a.1)
